@@ -12,7 +12,7 @@
    Every poolRoutine turn that stores a block logs [E_saved st first second] (the state it had,
    the block stored, the block whose LastCommit was stored as seen commit). *)
 From Coq Require Import List ZArith NArith Bool Lia.
-From TM Require Import Generated.Consts C07.Model C07.Proofs C13.Model C13.Proofs C13.ProofsPool C13.ProofsSync C13.ProofsCount.
+From TM Require Import Generated.Consts C07.Model C07.Proofs C13.Model C13.Proofs C13.ProofsPool C13.ProofsSync C13.ProofsCount C13.ProofsStatus.
 Import ListNotations.
 Open Scope Z_scope.
 
@@ -764,3 +764,53 @@ Proof.
   split; [eexists; split; [vm_compute; reflexivity | right; vm_compute; discriminate]|].
   repeat split; vm_compute; reflexivity.
 Qed.
+
+(* =================================================================================================
+   pool.maxPeerHeight and the hand-over (finding F79).  [pool_run spr ops pl] folds the BlockPool
+   operations that touch pool.peers / pool.maxPeerHeight (status, requester creation, picks,
+   blocks, RemovePeer, RedoRequest, PopRequest) with the SetPeerRange rule [spr] as a parameter.
+   ================================================================================================= *)
+
+(* The code as it is ([set_peer_range]) — REFUTED: "once nobody the node is connected to reports
+   more than pool.height + 1, the pool is caught up".  Peer 9 announces height 60, then height 3,
+   then disconnects; honest peer 1 announces the real top 6.  Afterwards the honest peer is the
+   only one in the pool, yet whatever happens next — any operations whose status messages stay
+   below 60, e.g. the whole honest sync — maxPeerHeight stays 60 and IsCaughtUp stays false as
+   long as pool.height < 59: the node never hands over to consensus.  (SetPeerRange only ever
+   raises maxPeerHeight; removePeer recomputes it only when the removed peer's height IS the
+   maximum, and the liar's recorded height is 3 by then.) *)
+Theorem C13_caught_up_after_status_lie_refuted :
+  forall (sig : Type),
+    let pl0 := pool_run set_peer_range
+                 [PL_status 9 1 60; PL_status 9 1 3; PL_remove 9; PL_status 1 1 6] (new_pool sig 1) in
+    map bp_id (p_peers pl0) = [1] /\ map bp_height (p_peers pl0) = [6] /\
+    forall ops : list (plop sig), Forall (status_below sig 60) ops ->
+      let pl := pool_run set_peer_range ops pl0 in
+      p_max_peer_height pl = 60 /\
+      (p_height pl < 59 -> forall waited, is_caught_up pl waited = false).
+Proof. intro sig. exact (status_lie_refuted sig). Qed.
+Print Assumptions C13_caught_up_after_status_lie_refuted.
+
+(* The repaired rule ([set_peer_range_fixed]: SetPeerRange ends with updateMaxPeerHeight(),
+   fixes/F79-blockpool-max-peer-height-follows-peers.diff): after EVERY operation list from a new
+   pool, maxPeerHeight is the maximum of the heights the peers in the pool report (0 without
+   peers), hence the pool is caught up — the blockchain reactor hands over to consensus at its
+   next tick — as soon as at least one peer is connected, no connected peer reports more than
+   pool.height + 1, and a block was received or 5 s have passed. *)
+Theorem C13_max_peer_height_follows_peers :
+  forall (sig : Type) (start : Z) (ops : list (plop sig)),
+    let pl := pool_run set_peer_range_fixed ops (new_pool sig start) in
+    p_max_peer_height pl = max_height (p_peers pl) /\
+    forall waited,
+      p_peers pl <> [] ->
+      Forall (fun x => bp_height x <= p_height pl + 1) (p_peers pl) ->
+      (0 < p_height pl \/ waited = true) ->
+      is_caught_up pl waited = true.
+Proof. intros sig start ops. exact (fixed_rule_hands_over sig start ops). Qed.
+Print Assumptions C13_max_peer_height_follows_peers.
+
+(* the witness of the refutation under the repaired rule: maxPeerHeight is the honest top *)
+Example C13_max_peer_height_follows_peers_nonvacuous :
+  p_max_peer_height (pool_run set_peer_range_fixed
+                       [PL_status 9 1 60; PL_status 9 1 3; PL_remove 9; PL_status 1 1 6] (new_pool isig 1)) = 6.
+Proof. vm_compute. reflexivity. Qed.
